@@ -148,20 +148,39 @@ def gen_view(models, eng, g, st):
     def at(i):
         s2 = st1.clone()
         s2.env = dict(g.env)
+        if i.op != 'int':
+            s2.assume(t.and_(t.le(t.ZERO, i), t.lt(i, sv.n)))
+        base = len(s2.pc)
+        from . import values as _values
+        c0 = _values._counter[0]
         for s3, fl in eng.assign(gen.target, sv.at(i), s2):
             if fl is not None:
                 raise OutOfReach('generator target')
             rs = eng.ev(node.elt, s3)
             rs = [(a, b) for a, b in rs if not a.infeasible()]
-            if len(rs) != 1 or isinstance(rs[0][1], Raised):
+            good = [(a, b) for a, b in rs if not isinstance(b, Raised)]
+            bad = [(a, b) for a, b in rs if isinstance(b, Raised)]
+            if len(good) != 1:
                 raise OutOfReach('generator element is not a single pure path: ' + ast.unparse(node.elt))
-            # facts assumed while evaluating the element (e.g. bor side facts) are kept
-            for c in rs[0][0].pc[len(st1.pc):]:
+            if i.op != 'int' and _values._counter[0] != c0:
+                # a fresh constant created while evaluating the element at a symbolic index would be shared by all
+                # indices under the quantifier: unsound, refuse
+                raise OutOfReach('generator element introduces fresh symbols under a quantifier: ' + ast.unparse(node.elt))
+            # the good path's added conditions split into: negations of failure conditions, and side facts
+            failconds = []
+            for a, b in bad:
+                cond = t.and_(*a.pc[base:])
+                failconds.append((cond, b.exc))
+            fails[:] = failconds
+            extra_facts[:] = []
+            for c in good[0][0].pc[base:]:
                 extra_facts.append(c)
-            return rs[0][1]
+            return good[0][1]
     extra_facts = []
+    fails = []
     v = SeqView(sv.n, at)
     v.extra_facts = extra_facts
+    v.fails = fails
     return v
 
 
@@ -195,23 +214,31 @@ def bytes_from_seq(models, eng, sv, st, what='bytes(...)'):
         raise OutOfReach('bytes() element kind')
     r = fresh('gen', t.ARR)
     inr = t.and_(t.le(t.ZERO, i), t.lt(i, n))
-    facts = list(getattr(sv, 'extra_facts', []))
+    fails = list(getattr(sv, 'fails', []))
+    failc = [c for c, _ in fails]
+    # facts recorded on the good path include the negated failure conditions; keep only those not mentioning failure
+    facts = [f for f in getattr(sv, 'extra_facts', []) if f.smt() != inr.smt() and f.smt() not in {x.smt() for x in inr.args}]
     rng = t.and_(ok, t.le(t.ZERO, iv), t.lt(iv, I(256)))
-    good = st.clone()
-    if facts:
-        good.assume(t.forall([i], t.implies(inr, t.and_(*facts)), pats=[[t.select(r, i)]]))
-    good.assume(t.forall([i], t.implies(inr, t.and_(t.eq(t.select(r, i), iv), rng)), pats=[[t.select(r, i)]]))
-    out = [(good, VBytes(r, t.ZERO, t.imax(n, t.ZERO)))]
-    # failing branch: skolemised witness index
-    bad = st
+    out = []
+    # failing branches first (skolemised witness index), each on its own clone
     i0 = fresh('badidx', t.INT)
     sub = {i.args[0]: i0}
+    for cond, exc in fails:
+        b = st.clone()
+        b.assume(t.and_(t.le(t.ZERO, i0), t.lt(i0, n)))
+        b.assume(t.substitute(cond, sub))
+        if not b.infeasible():
+            out.append((b, Raised(exc)))
+    bad = st.clone()
     bad.assume(t.and_(t.le(t.ZERO, i0), t.lt(i0, n)))
     for f in facts:
         bad.assume(t.substitute(f, sub))
     bad.assume(t.not_(t.substitute(rng, sub)))
     if not bad.infeasible():
         out.extend(eng.raise_(bad, 'ValueError', origin=what + ' element out of range(256)'))
+    good = st
+    good.assume(t.forall([i], t.implies(inr, t.and_(t.eq(t.select(r, i), iv), rng, *facts)), pats=[[t.select(r, i)]]))
+    out.insert(0, (good, VBytes(r, t.ZERO, t.imax(n, t.ZERO))))
     return out
 
 
